@@ -246,6 +246,7 @@ def _run_live(case, want_secrets):
         return {'config_error': str(e)[:200]}
     cc, sc = loop.classify(co), loop.classify(so)
     obs = {'client_outcome': list(cc), 'server_outcome': list(sc), 'hello2_len': hello2_len(p.csock),
+           'hello_sent': bool(p.csock.sent_log),
            'client': _side(p.client, cc == ('ok',)), 'server': _side(p.server, sc == ('ok',))}
     if cc == ('ok',) and sc == ('ok',):
         # data both ways proves the record protection parameters are really shared
@@ -279,6 +280,8 @@ def outcome_code(obs):
         return 1000 + cc[1]
     if sc[0] == 'LocalAlert':
         return 2000 + sc[1]
+    if cc[0] == 'Other' and cc[1] == 'ValueError':
+        return 1800             # configuration refused before anything was sent (documented behaviour)
     if cc[0] in ('Other', 'TLSError', 'AuthError'):
         return 1900
     if sc[0] in ('Other', 'TLSError', 'AuthError'):
@@ -418,6 +421,8 @@ def property_oracle(case, obs, cval, sval):
         # "otherwise the handshake fails with an alert"
         crashed = False
         for side, o in (('client', cc), ('server', sc)):
+            if o[0] == 'Other' and o[1] == 'ValueError' and side == 'client' and obs.get('hello_sent') is False:
+                return bad          # the client refused its own settings with ValueError: not a handshake
             if o[0] in ('Other', 'Deadlock', 'TLSError', 'AuthError'):
                 crashed = True
                 what = ':'.join(str(x) for x in o[1:3])[:48].rstrip()
@@ -650,4 +655,17 @@ def fixed_cases():
     case(cmod={'requireExtendedMasterSecret': True}, s_cert='rsa')
     case(cmod={'maxVersion': [3, 1]}, s_cert='rsa', c_npn=[0, 1], s_npn=[1])
     case(cmod={'minVersion': [3, 0], 'maxVersion': [3, 0]}, smod={'minVersion': [3, 0]}, s_cert='rsa')
+    # settings validate() accepts but no signature algorithm fits the enabled versions: `assert sig_list`
+    case(cmod={'minVersion': [3, 4], 'rsaSigHashes': [], 'ecdsaSigHashes': [], 'more_sig_schemes': []}, s_cert='rsa')
+    # EdDSA before TLS 1.2, SSLv3 with extended master secret, SRP with an rsa-pss key, disjoint FFDHE groups
+    case(cmod={'maxVersion': [3, 2], 'versions': [[3, 2], [3, 1]]}, s_cert='ed25519')
+    case(cmod={'minVersion': [3, 0], 'maxVersion': [3, 3], 'versions': [[3, 3], [3, 2], [3, 1], [3, 0]]},
+         smod={'minVersion': [3, 0], 'maxVersion': [3, 0], 'versions': [[3, 0]]}, s_cert='rsa')
+    case(cmod={'maxVersion': [3, 2], 'versions': [[3, 2], [3, 1]]}, flavour='srp', s_srp=[0], s_cert='rsapss')
+    case(cmod={'maxVersion': [3, 3], 'versions': [[3, 3], [3, 2], [3, 1]], 'keyExchangeNames': ['dh_anon'], 'dhGroups': ['ffdhe2048']},
+         smod={'dhGroups': ['ffdhe3072']}, flavour='anon', s_anon=True)
+    case(cmod={'maxVersion': [3, 3], 'versions': [[3, 3], [3, 2], [3, 1]], 'more_sig_schemes': ['Ed448']}, s_cert='rsa',
+         s_req_cert=True, c_cert='client-ed25519')
+    case(cmod={'more_sig_schemes': ['Ed448']}, s_cert='rsa', s_req_cert=True, c_cert='client-ed25519')
+    case(cmod={'requireExtendedMasterSecret': True, 'maxVersion': [3, 3], 'versions': [[3, 3], [3, 2], [3, 1]]}, s_cert='rsa')
     return out
